@@ -132,6 +132,9 @@ func (u *Unit) ensureAxioms() {
 // ensureSpecFunc emits the SMT definition of a spec function on first use.
 func (u *Unit) ensureSpecFunc(name string) *SpecFunc {
 	sf := u.cs.SpecFuncs[name]
+	if sf == nil && u.world != nil && u.world.std != nil {
+		sf = u.world.std.SpecFuncs[name]
+	}
 	if sf == nil {
 		return nil
 	}
